@@ -132,7 +132,7 @@ func expand(args []string) {
 	shuffles, _ := strconv.Atoi(args[1])
 	seed, _ := strconv.ParseInt(args[2], 10, 64)
 	table := extensionMacros()
-	if len(args) > 3 {
+	if len(args) > 3 && args[3] != "-" {
 		b, err := os.ReadFile(args[3])
 		if err != nil {
 			fmt.Fprintln(os.Stderr, err)
@@ -140,6 +140,20 @@ func expand(args []string) {
 		}
 		table = nil
 		if err := json.Unmarshal(b, &table); err != nil {
+			fmt.Fprintln(os.Stderr, err)
+			os.Exit(1)
+		}
+	}
+	// an earlier life of the process: another table with the same names (other definitions), installed and used
+	// before the table under test is installed - the expansion is a function of the query and the CURRENT table
+	var pre []macro
+	if len(args) > 4 {
+		b, err := os.ReadFile(args[4])
+		if err != nil {
+			fmt.Fprintln(os.Stderr, err)
+			os.Exit(1)
+		}
+		if err := json.Unmarshal(b, &pre); err != nil {
 			fmt.Fprintln(os.Stderr, err)
 			os.Exit(1)
 		}
@@ -175,6 +189,25 @@ func expand(args []string) {
 	order := make([]int, len(table))
 	for i := range order {
 		order[i] = i
+	}
+	if pre != nil {
+		kfl.VerifResetMacros()
+		for _, m := range pre {
+			kfl.AddMacro(m.Name, m.Def)
+		}
+		for _, q := range queries {
+			func() {
+				defer func() { recover() }()
+				kfl.ExpandMacros(q)
+			}()
+		}
+		// the table under test takes over by redefinition, name by name (no reset in between)
+		for _, m := range table {
+			kfl.AddMacro(m.Name, m.Def)
+		}
+		for i, q := range queries {
+			outs[i][run(i, q)] = true
+		}
 	}
 	for s := 0; s <= shuffles; s++ {
 		if s > 0 {
